@@ -141,6 +141,9 @@ def interpret_resolver(p):
                     return {ABS_CLEAN: REL_CLEAN, ABS_ANY: REL_ANY}.get(v, TOP)
                 if fn.attr in ("is_absolute", "is_relative_to"):
                     return BOOL
+                if fn.attr == "replace" and v in (S_REL_CLEAN, S_REL_ANY) and len(e.args) >= 2 and isinstance(e.args[1], ast.Constant) and isinstance(e.args[1].value, str):
+                    # rewriting characters of the already-normalised relative string: harmless unless it can create separators or dots
+                    return S_REL_ANY if (set(e.args[1].value) & set("/.\\")) else v
                 if fn.attr == "joinpath" and e.args:
                     r = v
                     for a in e.args:
